@@ -104,6 +104,15 @@ fn run_bdd(seed: u64, budget: usize) -> ! {
             let m = bdd.models(t, false);
             let sat = (exp as u32).count_ones() as usize; let unsat = (1usize << NV) - sat;
             if m.models * unsat != m.cmodels * sat { record(format!("C13: models({:?}) = ({},{}) not in ratio {}:{}; history: {}", t, m.cmodels, m.models, unsat, sat, log.join("; "))); continue 'round; }
+            // the memoised counts, asked for AFTER the memoised paths (the count table is shared); the documented exception
+            // (adhoccounting without adhoccountmodels: the table holds no model counts) is left out
+            if cfg!(not(feature = "adhoccounting")) || cfg!(feature = "adhoccountmodels") {
+                let mm = bdd.models(t, true);
+                if mm.models * unsat != mm.cmodels * sat || (mm.models == 0 && mm.cmodels == 0) { record(format!("C13: models({:?},memo) = ({},{}) not in ratio {}:{}; history: {}", t, mm.cmodels, mm.models, unsat, sat, log.join("; "))); continue 'round; }
+                let p2 = bdd.paths(t, true);
+                if p2.cmodels != pb || p2.models != pt { record(format!("C13: paths({:?},memo) after models(memo) = ({},{}) expected ({},{}); history: {}", t, p2.cmodels, p2.models, pb, pt, log.join("; "))); continue 'round; }
+            }
+            if m.models == 0 && m.cmodels == 0 { record(format!("C13: models({:?}) = (0,0); history: {}", t, log.join("; "))); continue 'round; }
         }
         // impact measures on a random term list
         let tl: Vec<Term> = (0..NV).map(|_| hs[rng.below(hs.len())].0).collect();
@@ -128,8 +137,32 @@ fn run_bdd(seed: u64, budget: usize) -> ! {
                 }
             } }
         }
-        let re = Bdd::from(bdd.nodes.clone());
+        let mut re = Bdd::from(bdd.nodes.clone());
         if re.nodes != bdd.nodes { record(format!("C14: rebuild from node list renumbers; history: {}", log.join("; "))); continue 'round; }
+        // ... and the rebuilt store is a store like any other: every issued handle can be re-derived (same handle, no new node
+        // for an existing function) and further operations stay canonical (C14 / C06)
+        for v in 0..NV {
+            let before = re.nodes.len();
+            let t = re.variable(Var(v));
+            if let Some((h, _)) = hs.iter().find(|(_, e)| *e == tt_var(v)) { if *h != t || re.nodes.len() != before { record(format!("C14/C06: variable({}) on the rebuilt store is {:?}, the original store had {:?}; history: {}", v, t, h, log.join("; "))); continue 'round; } }
+        }
+        let mut hs2 = hs.clone();
+        for _ in 0..6 {
+            let op = rng.below(5);
+            let a = hs2[rng.below(hs2.len())]; let b = hs2[rng.below(hs2.len())];
+            let (t, exp, what) = match op {
+                0 => (re.not(a.0), !a.1, format!("not({:?})", a.0)),
+                1 => (re.and(a.0, b.0), a.1 & b.1, format!("and({:?},{:?})", a.0, b.0)),
+                2 => (re.or(a.0, b.0), a.1 | b.1, format!("or({:?},{:?})", a.0, b.0)),
+                3 => (re.xor(a.0, b.0), a.1 ^ b.1, format!("xor({:?},{:?})", a.0, b.0)),
+                _ => { let v = rng.below(NV); let val = rng.below(2) == 1; (re.restrict(a.0, Var(v), val), tt_restrict(a.1, v, val), format!("restrict({:?},{},{})", a.0, v, val)) }
+            };
+            checked += 1;
+            if t.value() >= re.nodes.len() || tt_of(&re.nodes, t) != exp { record(format!("C14/C06: on the store rebuilt from the node list, {} -> {:?} denotes the wrong function; history: {}", what, t, log.join("; "))); continue 'round; }
+            if let Some(p) = canonical(&re.nodes) { record(format!("C14/C06: rebuilt store: {} after {}; history: {}", p, what, log.join("; "))); continue 'round; }
+            hs2.push((t, exp));
+            for (h2, e2) in &hs2 { if (*h2 == t) != (*e2 == exp) { record(format!("C14/C06: rebuilt store: handles {:?} and {:?} violate 'same handle iff same function' after {}; history: {}", h2, t, what, log.join("; "))); continue 'round; } }
+        }
     }
     out(None, checked)
 }
@@ -373,6 +406,16 @@ fn run_persist(seed: u64, budget: usize) -> ! {
         // database-layer rebuild
         let re: Adf = Adf::from((orig.ordering.clone(), Bdd::from(orig.bdd.nodes.clone()), orig.ac.clone()));
         if re.bdd.nodes != orig.bdd.nodes { record(format!("C14: rebuild from node list of `{}` renumbers", text)); continue 'round; }
+        // the same rebuild from a node list that the computations above have not grown yet, then compute on it
+        let fresh = Adf::from_parser(&parser);
+        let mut re2: Adf = Adf::from((fresh.ordering.clone(), Bdd::from(fresh.bdd.nodes.clone()), fresh.ac.clone()));
+        if re2.bdd.nodes != fresh.bdd.nodes || re2.ac != fresh.ac { record(format!("C14: rebuild from the fresh node list of `{}` changes the parts", text)); continue 'round; }
+        if tvs(&re2.grounded()) != tvs(&go) { record(format!("C14: grounded differs on the ADF rebuilt from its parts (`{}`)", text)); continue 'round; }
+        let c2: Vec<V3> = re2.complete().map(|v| tvs(&v)).collect(); let c1: Vec<V3> = co.iter().map(|v| tvs(v)).collect();
+        if sorted(c2) != sorted(c1) { record(format!("C14: complete models differ on the ADF rebuilt from its parts (`{}`)", text)); continue 'round; }
+        let s2: Vec<V3> = re2.stable().map(|v| tvs(&v)).collect(); let s1: Vec<V3> = so.iter().map(|v| tvs(v)).collect();
+        if sorted(s2) != sorted(s1) { record(format!("C14: stable models differ on the ADF rebuilt from its parts (`{}`)", text)); continue 'round; }
+        if let Some(p) = canonical(&re2.bdd.nodes) { record(format!("C06/C14: {} after computing on the ADF rebuilt from its parts (`{}`)", p, text)); continue 'round; }
     }
     out(None, checked)
 }
